@@ -680,4 +680,10 @@ def r05_11(ctx):
     ctx.floor("R05.11", "serializer methods taking caller text", n, 8)
 
 
-RULES = [("R05.1", r05_1), ("R05.2", r05_2), ("R05.3", r05_3), ("R05.4", r05_4), ("R05.5", r05_5), ("R05.6", r05_6), ("R05.7", r05_7), ("R05.8", r05_8), ("R05.9", r05_9), ("R05.10", r05_10), ("R05.11", r05_11)]
+def r05_s(ctx):
+    """the text denotes the value: every number writer formats its own parameter at its own width (shared with C08)"""
+    from . import c08
+    ctx.include(c08.r08_1, "R05.S")
+
+
+RULES = [("R05.1", r05_1), ("R05.2", r05_2), ("R05.3", r05_3), ("R05.4", r05_4), ("R05.5", r05_5), ("R05.6", r05_6), ("R05.7", r05_7), ("R05.8", r05_8), ("R05.9", r05_9), ("R05.10", r05_10), ("R05.11", r05_11), ("R05.S", r05_s)]
